@@ -96,13 +96,13 @@ def tree_counts(t, acc):
 
 def main(run):
     tier = run.tier
-    nscripts = 18 if tier == "quick" else 63
-    seeds = [0, 1, 2] if tier == "quick" else [0, 1, 2, 3]
+    nscripts = 24 if tier == "quick" else 72
+    seeds = [0, 1, 2] if tier == "quick" else [0, 1, 2, 3, 4, 5]
     known = {k["id"]: k for k in vlib.load_known_findings("C12")}
     if tier == "quick":     # every advance with hash seed 0, the other hash seeds at advances 0 and 9
-        configs = [(a, seeds[0]) for a in ADVANCES] + [(0, 1), (0, 2), (9, 1)]
+        configs = [(a, seeds[0]) for a in ADVANCES] + [(0, 1), (0, 2), (9, 1), (98, 2), (7, 1), (21, 2)]
     else:
-        configs = [(a, h) for a in ADVANCES for h in seeds]
+        configs = [(a, h) for a in ADVANCES for h in seeds[:4]] + [(a, h) for a in (0, 9, 7, 21) for h in seeds[4:]]
     with cf.ThreadPoolExecutor(max_workers=vlib.NCPU) as ex:
         outs = list(ex.map(lambda c: run_config(c[0], c[1], nscripts, run.seed), configs))
     data = {c: {r["k"]: r for r in o["results"]} for c, o in zip(configs, outs)}
